@@ -40,6 +40,12 @@ def cases(tier, rng, run):
                         # a named expression whose own name is already bound (to something else): the value is
                         # still the arithmetic value of the expression, not the remembered binding
                         out.append(Case(f"EVAL\tn={e}\t{sc};n:977", f"exh{k}"))
+    # identifiers that merely BEGIN (or end) with the name of a function, or contain one: they are identifiers
+    for e, sc in (("max_len*2", "max_len:3"), ("n-min_size", "n:9;min_size:4"), ("isqrt(isqrt_in)", "isqrt_in:17"), ("out=(maxpool-1)/2", "maxpool:9"), ("minimum+1", "minimum:1"),
+                  ("min(mina,maxb)", "mina:2;maxb:5"), ("min2*max3", "min2:2;max3:3"), ("max_len", "max_len:7"), ("isqrtn^2", "isqrtn:3"), ("amin+bmax", "amin:1;bmax:2"),
+                  ("max(maximum,min_)", "maximum:4;min_:6"), ("n=minutes/60", "minutes:150"), ("imax-imin", "imax:9;imin:2"), ("isqrt(max_)+min(minx,1)", "max_:16;minx:5")):
+        out.append(Case(f"PARSE\t{e}", "fn-prefix"))
+        out.append(Case(f"EVAL\t{e}\t{sc}", "fn-prefix"))
     # exponents that come out negative under the scope (`a-b` with a < b): the result is still an integer
     for e in ("2^(a-b)", "b*2^(a-b)", "b/2^(a-b)", "isqrt(4^(a-b))", "1^(a-b)", "a^(a-b)", "(a-b)^(a-b)", "2^(a-b)^2", "max(2^(a-b),1)", "n=3*2^(a-b)+1", "2^(0-a)*b+b"):
         for sc in ("a:1;b:2", "a:1;b:3", "a:2;b:4", "a:3;b:5", "a:0;b:1"):
